@@ -38,7 +38,16 @@ def run_raw(ctx, files, tag, jobs=16):
     write_list(lst, files)
     ops, imp = ctx.path(tag + ".ops"), ctx.path(tag + ".impl")
     rc, out = C.harness(["raw", "--list", lst, "--ops", ops, "--impl", imp])
-    if rc != 0:
+    restarts = 0
+    while rc == 75 and restarts < 3:
+        # an open that ran into the watchdog left a runaway thread behind: fresh process for the rest
+        restarts += 1
+        nxt = [l.split()[1] for l in out.splitlines() if l.startswith("RESTART ")][-1]
+        rc, out = C.harness(["raw", "--list", lst, "--ops", ops, "--impl", imp, "--start", nxt])
+    if rc == 75:
+        # four opens hung: each is a failing input already; the rest of this batch is not run
+        ctx.notes = getattr(ctx, "notes", []) + ["%s: cut short after 4 watchdog timeouts" % tag]
+    elif rc != 0:
         ctx.undischarged.append("harness raw campaign crashed: " + out[-300:])
         return [], [], []
     ops_lines = open(ops).read().splitlines()
